@@ -20,7 +20,7 @@ Pool == <<"0", "1", "(-1)", "2", "2147483647", "(-2147483647 - 1)", "46341", "30
           "true", "false", "''", "'abc'", "%nonascii", "'1'", "'2020-01-01'", "'1 mg'",
           "@2020", "@2020-02", "@2020-02-29", "@9999-12-31", "@0001-01-01", "@2020T", "@2020-02-29T23:59:59.999+14:00",
           "@2020-02-29T00:00:00-12:00", "@2020-02-29T10", "@T00", "@T23:59:59.999", "@T12:30",
-          "1 'mg'", "1 year", "(-5 days)", "0 'mg'", "1000000 years",
+          "1 'mg'", "1 year", "(-5 days)", "0 'mg'", "1000000 years", "(5 '')", "(-5 ' ')", "(-1.5 'a b')",
           "{}", "%multi", "%cx", "%node", "Patient.name", "Patient.birthDate", "Patient.active", "Patient.telecom.rank", "Patient.photo">>
 (* '(' and '[a-' are not regular expressions *)
 ArgsA == <<"0", "1", "(-1)", "309", "2001", "2147483647", "(-2147483647 - 1)", "1.5", "0.0", "true", "''", "'abc'", "%nonascii", "@2020", "@T12:30", "1 'mg'", "{}", "%multi", "%cx", "'('", "'[a-'">>
@@ -63,12 +63,15 @@ GenericPrograms == <<"children()", "descendants()", "descendants().count()", "ch
 
 (* "every collection of R4 resources and every supported set of evaluate options": the programs below are evaluated on   *)
 (* every input form with every option set (the harness builds both from these names)                                      *)
-InputForms == <<"one", "none", "nilslice", "two", "same-twice", "nil-element", "typed-nil-element", "nil-then-one", "bundle">>
+InputForms == <<"one", "none", "nilslice", "two", "same-twice", "nil-element", "typed-nil-element", "nil-then-one", "bundle",
+                \* resources built directly from the protos: a Bundle whose entries hold no resource, a Patient whose contained slots are empty
+                "bundle-empty-entries", "patient-empty-contained">>
 OptionSets == <<"none", "time-year-10000", "time-year-0", "time-year-minus-1", "time-9999-end", "time-zone+14", "time-zone-seconds",
                 "time-zero-value", "var-nil-collection", "var-empty-name", "var-twice", "var-nil-value", "var-typed-nil-element", "var-nested-collection">>
 OptionPrograms == <<"now()", "today()", "timeOfDay()", "now() + 1 year", "today() - 1 day", "now().toString()", "today().toString().toDate()",
                     "now() > today()", "timeOfDay() + 1 hour", "Patient.birthDate < today()", "Patient.name.given", "%x", "%x.count()",
-                    "Patient.name.where(given.count() > %x.count())", "descendants().count()", "%context", "%context.name", "Bundle.entry.resource.id">>
+                    "Patient.name.where(given.count() > %x.count())", "descendants().count()", "%context", "%context.name", "Bundle.entry.resource.id",
+                    "Bundle.entry.resource", "Bundle.entry", "Patient.contained", "Patient.contained.id", "children()", "Patient.name.family", "Bundle.entry.resource.descendants().count()">>
 
 (* The only outcomes a call may have. *)
 Returned == {"ok", "err", "cerr"}
